@@ -14,6 +14,7 @@ import (
 
 	"github.com/fabiolb/fabio/config"
 	"github.com/fabiolb/fabio/metrics"
+	"github.com/fabiolb/fabio/proxy"
 	"github.com/fabiolb/fabio/route"
 	"pgregory.net/rapid"
 
@@ -100,5 +101,40 @@ func TestC13MainWiringPrometheus(t *testing.T) {
 			hx.Class("prometheus-wiring:" + kind)
 		}
 		hx.NonTrivial(fmt.Sprintf("prom|%d|%s", code, host))
+	})
+}
+
+// TestC13MainWiringMatchers: a redirect route is found under every matcher an operator can
+// configure, whatever the host-glob option says (it concerns host names only), through the
+// proxy main.go builds from the option text.
+func TestC13MainWiringMatchers(t *testing.T) {
+	hx.Check(t, hx.Scale(100, 1500), func(t *rapid.T) {
+		matcher := rapid.SampledFrom([]string{"glob", "iprefix", "prefix"}).Draw(t, "proxy.matcher")
+		globOff := rapid.Bool().Draw(t, "glob.matching.disabled")
+		cfg, err := config.Load([]string{"fabio", "-proxy.matcher", matcher, fmt.Sprintf("-glob.matching.disabled=%v", globOff)}, nil)
+		if err != nil {
+			t.Fatal(err)
+		}
+		routePath := map[string]string{"glob": "/old/**", "iprefix": "/OLD", "prefix": "/old"}[matcher]
+		code := rapid.SampledFrom([]int{301, 302, 308}).Draw(t, "code")
+		text := fmt.Sprintf("route add redir %s https://new.example/$path opts \"redirect=%d strip=/old\"\nroute add web / http://127.0.0.1:1/\n", routePath, code)
+		tbl, err := route.NewTable(bytes.NewBufferString(text))
+		if err != nil {
+			t.Fatalf("%v\n%s", err, text)
+		}
+		route.SetTable(tbl)
+		h := flexAs[*proxy.HTTPProxy](newHTTPProxy, cfg, &proxy.HttpStatsHandler{Noroute: metrics.DiscardProvider{}.NewCounter("x")}, firstListen(cfg))
+		path := rapid.SampledFrom([]string{"/old/x", "/old/a/b", "/old/"}).Draw(t, "path")
+		rec := httptest.NewRecorder()
+		req := httptest.NewRequest("GET", "http://example.com"+path, nil)
+		req.RemoteAddr = "192.0.2.1:1234"
+		h.ServeHTTP(rec, req)
+		hx.Eval()
+		want := "https://new.example" + strings.TrimPrefix(path, "/old")
+		if rec.Code != code || rec.Header().Get("Location") != want {
+			t.Fatalf("proxy.matcher=%s glob.matching.disabled=%v: request %s answered %d Location %q, want %d %q\n%s", matcher, globOff, path, rec.Code, rec.Header().Get("Location"), code, want, text)
+		}
+		hx.NonTrivial(fmt.Sprintf("matcher-redirect|%s|%v|%d|%s", matcher, globOff, code, path))
+		hx.Class("main-wiring-redirect:matcher=" + matcher)
 	})
 }
